@@ -18,7 +18,8 @@ RULE = (
     'must be calls the memoized echo function answers identically (== when untyped, type-strict when typed); random part: '
     'call histories through Cache/FanoutCache/Index/DjangoCache.memoize and memoize_stampede with expire in {None,10,0} '
     'and clock steps: every result equals the direct call, a repeat within the expiry time does not run the function, after '
-    'it does, expire=0 stores nothing. non-trivial = a signature whose flattened key material equals or permutes that of '
+    'it does, expire=0 stores nothing; stacked part: memoize / memoize_stampede around an already memoized callable plus a second function on '
+    'one Cache or FanoutCache: results, distinct name-prefixed keys, __wrapped__. non-trivial = a signature whose flattened key material equals or permutes that of '
     'another signature (collision-prone bucket), resp. a history with a repeated call; distinct by signature/case hash'
 )
 ASSUMPTIONS = [
